@@ -166,7 +166,8 @@ Section Oracles.
       brp_run hok hdrdec o seek (enc_payload roots bs) w
       = Ok (1, roots, st0, (fst (exp_walk seek 0 w bs h h), (snd (exp_walk seek 0 w bs h h), fin))) /\
       p_hw st0 = h /\ p_pos st0 = h /\
-      p_hw fin = last (map step_hw (fst (exp_walk seek 0 w bs h h))) h.
+      p_hw fin = last (map step_hw (fst (exp_walk seek 0 w bs h h))) h /\
+      (p_off st0 = h /\ p_all st0 = enc_payload roots bs /\ p_rsize st0 = None).
   Proof.
     intros Hok. cbn zeta. unfold brp_run. rewrite (brp_open_v1 o seek roots bs Hok). cbn zeta.
     set (h := sec_start roots bs 0).
@@ -179,7 +180,7 @@ Section Oracles.
     rewrite <- Hh in Hw. change (seekpath st0) with (seek && true) in Hw. rewrite andb_true_r in Hw.
     change (p_v1off st0) with 0 in Hw. change (p_hw st0) with h in Hw.
     exists st0, (snd (snd (brp_walk hok o w st0))).
-    split; [|split; [reflexivity|split; [reflexivity|]]].
+    split; [|split; [reflexivity|split; [reflexivity|split; [|repeat split]]]].
     - rewrite <- Hw. cbn [fst snd].
       destruct (brp_walk hok o w st0) as [steps [e fin]]. reflexivity.
     - rewrite Hfin. rewrite <- Hw. reflexivity.
@@ -204,7 +205,8 @@ Section Oracles.
       brp_run hok hdrdec o seek (v2_file hi lo ioff pad (enc_payload roots bs) trailer) w
       = Ok (2, roots, st0, (fst (exp_walk false base w bs h h), (snd (exp_walk false base w bs h h), fin))) /\
       p_hw st0 = h /\ p_pos st0 = h /\
-      p_hw fin = last (map step_hw (fst (exp_walk false base w bs h h))) h.
+      p_hw fin = last (map step_hw (fst (exp_walk false base w bs h h))) h /\
+      (p_off st0 = h /\ p_all st0 = v2_file hi lo ioff pad (enc_payload roots bs) trailer /\ p_lim st0 <> None).
   Proof.
     intros Hok (Hpr & Hmaxh & Hhi & Hlo & Hio & Hdo & Hds). cbn zeta.
     pose proof Hok as ((Hg & Hmax & H63 & _) & _).
@@ -259,6 +261,7 @@ Section Oracles.
     split; [|split; [exact Hhw0|split]].
     - rewrite <- Hw. cbn [fst snd]. destruct (brp_walk hok o w st0) as [steps [e fin]]. reflexivity.
     - destruct Hat as (_ & Hpos & _). rewrite Hpos. exact Hlen.
-    - rewrite Hfin. rewrite <- Hw, Hhw0. reflexivity.
+    - split; [rewrite Hfin; rewrite <- Hw, Hhw0; reflexivity|].
+      split; [rewrite Hoff; exact Hlen|]. split; [reflexivity|]. unfold st0, st00. cbn. discriminate.
   Qed.
 End Oracles.
